@@ -26,6 +26,11 @@ func init() {
 type c13 struct {
 	rep    *core.Report
 	maxLoc int
+	// held: the previous non-empty answer, kept the way a queued headers message keeps it, and
+	// what it has to be; it is looked at again after the next request has been served
+	held     []*wire.BlockHeader
+	heldWant []*core.MHeader
+	heldDesc string
 }
 
 func (o *c13) viol(c *core.Ctx, kind, what string, exp, obs any) {
@@ -125,6 +130,15 @@ func (o *c13) checkRequest(c *core.Ctx, rig *core.Rig, t *core.Tree, longest []*
 	}
 	want := expectAnswer(t, longest, labels, loc, stop)
 	got, err := rig.Svc.Headers.LocateHeadersGetHeaders(l, st)
+	// an answer belongs to its request: the one handed out before must not change because
+	// another request was served (two peers asking, one peer pipelining)
+	if o.held != nil && !sameHeaders(o.held, o.heldWant) {
+		o.viol(c, "getheaders.answer_changed_by_next_request", o.heldDesc+": the answer was correct when it was returned and differs after the next request ("+desc+") was served", wantHeights(o.heldWant), heightsOf(t, o.held))
+	}
+	o.held, o.heldWant, o.heldDesc = nil, nil, ""
+	if err == nil && len(got) > 0 && sameHeaders(got, want) {
+		o.held, o.heldWant, o.heldDesc = got, want, desc
+	}
 	got2 := rig.Svc.Headers.LocateHeaders(l, st)
 	g2 := make([]*wire.BlockHeader, len(got2))
 	for i := range got2 {
